@@ -86,8 +86,18 @@ func (v *Verifier) callCommon(s *State, c *ssa.CallCommon, fv *Value, args []*Va
 		}
 		if callee == nil {
 			// unknown function value
-			if fv != nil && fv.L[0] != nil {
+			hasGlobalContract := fv != nil && strings.HasPrefix(fv.Orig, "global:") && v.contracts.byName[strings.TrimPrefix(fv.Orig, "global:")] != nil
+			if fv != nil && fv.L[0] != nil && !hasGlobalContract {
 				v.addOb(s, "nil", pos, Neq(fv.L[0], Int(0)), "", nil)
+			}
+			if fv != nil && strings.HasPrefix(fv.Orig, "global:") {
+				name := strings.TrimPrefix(fv.Orig, "global:")
+				if fc := v.contracts.byName[name]; fc != nil {
+					v.byContract[name] = true
+					if sig, ok := under(fv.T).(*types.Signature); ok {
+						return v.applyContract(s, fc, sig, args, pos, resultType(c), name)
+					}
+				}
 			}
 			if cb := v.callbackContract(s, c, fv); cb != nil {
 				return v.applyCallback(s, cb, c, args, pos)
@@ -147,7 +157,39 @@ func (v *Verifier) canInline(s *State, callee *ssa.Function) bool {
 		limit = 400 // closures defined in verified functions are part of them
 	}
 	if !isModulePkg(fnPkg(callee)) {
-		return false
+		// small loop-free leaf functions of dependencies (String() methods, accessors) are executed as they are
+		if n > 90 || callee.Synthetic != "" {
+			return false
+		}
+		for _, b := range callee.Blocks {
+			for _, succ := range b.Succs {
+				if succ.Dominates(b) {
+					return false
+				}
+			}
+			for _, ins := range b.Instrs {
+				if c, ok := ins.(ssa.CallInstruction); ok {
+					if _, isB := c.Common().Value.(*ssa.Builtin); !isB {
+						return false
+					}
+				}
+				switch ins.(type) {
+				case *ssa.Go, *ssa.Defer, *ssa.Select, *ssa.Send, *ssa.MapUpdate, *ssa.Store:
+					if st, ok := ins.(*ssa.Store); ok {
+						if a, ok := st.Addr.(*ssa.Alloc); ok && !a.Heap {
+							continue
+						}
+						if fa, ok := st.Addr.(*ssa.FieldAddr); ok {
+							if a, ok := fa.X.(*ssa.Alloc); ok && !a.Heap {
+								continue
+							}
+						}
+					}
+					return false
+				}
+			}
+		}
+		return true
 	}
 	if fc := v.contracts.forFunc(callee); fc != nil && fc.NoInline {
 		return false
@@ -505,6 +547,7 @@ func (v *Verifier) lenOf(s *State, x *Value) *Term {
 	case *types.Basic:
 		return App("slen", SInt, x.term())
 	case *types.Map:
+		v.mapLenFacts(s, x)
 		h := s.heapArr(mapBase(x.T)+"#len", ArrSort(SInt, SInt))
 		r := Select(h, x.term())
 		addFact(r, And(Le(Int(0), r), Le(r, maxLen)))
@@ -723,7 +766,38 @@ func (v *Verifier) execLookup(s *State, t *ssa.Lookup) {
 	v.set(s, t, &Value{T: t.Type(), L: got.L})
 }
 
+// mapLenFacts ties len(m) to the presence relation of the same heap version (partial cardinality axioms, valid for
+// every Go map): a present key implies len >= 1; len == 1 implies at most one present key.
+func (v *Verifier) mapLenFacts(s *State, m *Value) {
+	if m.term().bound {
+		return
+	}
+	mt := under(m.T).(*types.Map)
+	ks := mapKeySorts(mt)
+	hl := s.heapArr(mapBase(m.T)+"#len", ArrSort(SInt, SInt))
+	ln := Select(hl, m.term())
+	if !opaque(ln) {
+		return
+	}
+	hh := s.heapArr(mapBase(m.T)+"#has", ArrSort(SInt, nestSort(ks, SBool)))
+	hm := Select(hh, m.term())
+	var k1, k2 []*Term
+	for i, k := range ks {
+		k1 = append(k1, BoundVar(fmt.Sprintf("k1!card%d", i), k))
+		k2 = append(k2, BoundVar(fmt.Sprintf("k2!card%d", i), k))
+	}
+	h1 := selectN(hm, k1)
+	h2 := selectN(hm, k2)
+	addFact(ln, Forall(k1, Implies(h1, Ge(ln, Int(1))), []*Term{h1}))
+	var same []*Term
+	for i := range k1 {
+		same = append(same, Eq(k1[i], k2[i]))
+	}
+	addFact(ln, Forall(append(append([]*Term{}, k1...), k2...), Implies(And(h1, h2, Eq(ln, Int(1))), And(same...)), []*Term{h1, h2}))
+}
+
 func (v *Verifier) mapStore(s *State, m, k, val *Value) {
+	v.mapLenFacts(s, m)
 	mt := under(m.T).(*types.Map)
 	ks := mapKeySorts(mt)
 	keys := v.mapKeyTerms(k)
@@ -746,6 +820,7 @@ func (v *Verifier) mapStore(s *State, m, k, val *Value) {
 }
 
 func (v *Verifier) mapDelete(s *State, m, k *Value) {
+	v.mapLenFacts(s, m)
 	mt := under(m.T).(*types.Map)
 	ks := mapKeySorts(mt)
 	keys := v.mapKeyTerms(k)
